@@ -195,14 +195,11 @@ class SVBackendImpl:
         """
         times = observable.evaluation_times
 
-        is_observable_eval_time = (
-            times is not None
-            and self._config.is_time_in_evaluation_times(t, times, tol=tolerance)
-        )
+        if times is not None:
+            # the observable's own times replace the default ones
+            return self._config.is_time_in_evaluation_times(t, times, tol=tolerance)
 
-        is_default_eval_time = self._config.is_evaluation_time(t, tol=tolerance)
-
-        return is_observable_eval_time or is_default_eval_time
+        return self._config.is_evaluation_time(t, tol=tolerance)
 
     def _apply_observables(self, step_idx: int) -> None:
         norm_time = self.target_times[step_idx] / self.target_times[-1]
